@@ -62,6 +62,7 @@ def run(tier: str) -> int:
             {"Family": "tags", "MaxLen": 3, "Starts": "zero", "Sample": 200, "workers": 3, "opt_cfgs": small},
             {"Family": "ci", "MaxLen": 3, "Starts": "zero", "Sample": 250, "workers": 3, "opt_cfgs": small, "style": "min"},
             {"Family": "trivfx", "MaxLen": 3, "Starts": "zero", "Sample": 150, "workers": 3, "opt_cfgs": small},
+            {"Family": "bounds", "MaxLen": 3, "Starts": "zero", "Sample": 200, "workers": 3, "opt_cfgs": small, "style": "min"},
         ]
     else:
         fams = [
@@ -81,6 +82,7 @@ def run(tier: str) -> int:
             {"Family": "tags", "MaxLen": 3, "Starts": "zero", "Sample": 0, "workers": 8, "opt_cfgs": small},
             {"Family": "ci", "MaxLen": 3, "Starts": "zero", "Sample": 0, "workers": 8, "opt_cfgs": small, "style": "min"},
             {"Family": "trivfx", "MaxLen": 3, "Starts": "zero", "Sample": 0, "workers": 8, "opt_cfgs": small},
+            {"Family": "bounds", "MaxLen": 3, "Starts": "zero", "Sample": 0, "workers": 8, "opt_cfgs": small, "style": "min"},
         ]
     total = 0
     for f in fams:
